@@ -123,3 +123,46 @@ LEMMAS = {
                            "text": "integer rounding of solver positions costs at most 1 unit of separation and keeps order"},
 }
 SPECFUNS = {}
+
+
+# ---------------------------------------------------------------------------------------------------------------------
+# C07 / C09: the way-points of a link (Renderer.getWayPoints), for a label in layer 0, 1 and 2 (a chain of 0, 1, 2 stubs
+# below it) and the four directions: loop-free harnesses (the parent chain has a concrete length, every number is
+# symbolic).  The link starts at the ROOT's data position on the axis, and for every layer it passes first the axis-facing
+# edge and then the far edge of that layer's box row, at the position of the item (stub or label) in that layer - the
+# axis-facing edge is exactly where Renderer.layout puts the box (POS above): "ends at the middle of the axis-facing edge".
+# ---------------------------------------------------------------------------------------------------------------------
+_CHAIN = {0: (["node"], ["node is not None", "node.parent is None"]),
+          1: (["s0", "node"], ["node is not None and s0 is not None and node is not s0", "node.parent is s0", "s0.parent is None"]),
+          2: (["s0", "s1", "node"], ["node is not None and s0 is not None and s1 is not None", "node is not s0 and node is not s1 and s0 is not s1",
+                                     "node.parent is s1", "s1.parent is s0", "s0.parent is None"])}
+_GAP = "(self.options['nodeHeight'] + self.options['layerGap'])"
+
+
+def _waypoint_posts(direction, hops):
+    sign = "-" if direction in ("left", "up") else ""
+    horizontal = direction in ("left", "right")
+    posts = [("as_many_segments_as_layers_plus_the_dot", "len(result) == %d" % (len(hops) + 1)),
+             ("starts_at_the_roots_data_position_on_the_axis",
+              "len(result[0]) == 1 and result[0][0][%d] == 0 and result[0][0][%d] == %s.idealPos" % ((0, 1, hops[0]) if horizontal else (1, 0, hops[0])))]
+    for k, h in enumerate(hops):
+        far = "%s%s * %d" % (sign, _GAP, k + 1)
+        near = "%s(%s * %d - self.options['nodeHeight'])" % (sign, _GAP, k + 1)
+        a, p = (0, 1) if horizontal else (1, 0)      # a: across the axis, p: along it
+        posts.append(("layer_%d_near_then_far_edge_at_the_items_position" % k,
+                      "len(result[{s}]) == 2 and result[{s}][0][{a}] == {near} and result[{s}][1][{a}] == {far} "
+                      "and result[{s}][0][{p}] == {h}.currentPos and result[{s}][1][{p}] == {h}.currentPos".format(s=k + 1, a=a, p=p, near=near, far=far, h=h)))
+        # the near edge is where Renderer.layout places the box of an item of layer k (POS = k * gap + layerGap)
+        posts.append(("layer_%d_near_edge_is_the_layout_position" % k,
+                      "result[{s}][0][{a}] == {sign}({k} * {gap} + self.options['layerGap'])".format(s=k + 1, a=a, sign=sign, k=k, gap=_GAP)))
+    return posts
+
+
+for _d in DIRECTIONS:
+    for _depth, (_hops, _req) in _CHAIN.items():
+        CONTRACTS["renderer.Renderer.getWayPoints@%s_layer%d" % (_d, _depth)] = {
+            "props": ["C07", "C09"], "heap": True, "inline": True, "func_alias": "renderer.Renderer.getWayPoints",
+            "params": dict({"self": renderer_obj(_d)}, **{h: "ref:Node" for h in _hops}),
+            "requires": list(_req), "modifies": [],
+            "ensures": _waypoint_posts(_d, _hops),
+        }
